@@ -4,8 +4,12 @@ The agent sees only the property text, its own scratch worktree, and one-line su
 tried for that property (so that a new wave aims elsewhere).  Nothing from /verif is given to it."""
 import json, sys, os, glob
 
-base = sys.argv[1]
-ids = sys.argv[2:]
+args = [a for a in sys.argv[1:] if not a.startswith("--")]
+style = "small" if "--small" in sys.argv else "coop"
+base = args[0]
+ids = args[1:]
+STYLE_COOP = "At least ONE of the two must consist of two cooperating edits at different sites that each look harmless alone, or depend on state carried across several calls."
+STYLE_SMALL = "This time keep them SMALL: each mutation is a slip of one to three lines at a single site (a boundary comparison, a wrong variable or field, a swapped argument, a missing or extra condition, a wrong constant, an early return, a wrong error class, a forgotten reset) of the kind that survives review; still NOT something ordinary use would expose at once. Pick sites in DIFFERENT files or functions for the two, and prefer clauses of the statement and entry points / options / node implementations the quantifier names that the earlier ideas below did not touch."
 props = {}
 for line in open('/verif/properties.jsonl'):
     p = json.loads(line); props[p['id']] = p
@@ -31,7 +35,7 @@ Statement: {p['statement']}
 Quantified over: {q.get('text', '')}
 Code it is anchored in: {anchors}
 
-Task: produce TWO independent source changes (mutations) to the library, each of which BREAKS this property while (a) the library still compiles and (b) the library's existing test suite still passes (apart from the three always-failing tests mentioned). Make them realistic, subtle bugs of the kind a maintainer could introduce by accident: each must need something specific to manifest — an unusual input or boundary value, a multi-step sequence of operations, a particular option/configuration, a particular interleaving, a crash or fault at a particular point — NOT something that ordinary use would expose at once. At least ONE of the two must consist of two cooperating edits at different sites that each look harmless alone, or depend on state carried across several calls. Aim at mechanisms, clauses of the statement and files DIFFERENT from the ideas already tried by others for this property, which were:
+Task: produce TWO independent source changes (mutations) to the library, each of which BREAKS this property while (a) the library still compiles and (b) the library's existing test suite still passes (apart from the three always-failing tests mentioned). Make them realistic, subtle bugs of the kind a maintainer could introduce by accident: each must need something specific to manifest — an unusual input or boundary value, a multi-step sequence of operations, a particular option/configuration, a particular interleaving, a crash or fault at a particular point — NOT something that ordinary use would expose at once. """ + (STYLE_SMALL if style == "small" else STYLE_COOP) + """ Aim at mechanisms, clauses of the statement and files DIFFERENT from the ideas already tried by others for this property, which were:
 """ + ''.join(f'- {t}\n' for t in tried) + f"""(Do not repeat those; look for other clauses of the statement, other code paths, other files among the anchors and what they call, other node implementations / options / entry points the quantifier mentions.)
 
 For each mutation k in 1..2 create the directory {d}/m<k>/ containing:
